@@ -53,7 +53,10 @@ def budget(tier):
 SMALL_ALPHABET = ('tick', 'assign', 'jump', 'cjump', 'label', 'return', 'function')
 
 
-def small_model(rng, gen):
+CHURN_ALPHABET = ('label', 'label', 'label', 'jump', 'jump', 'cjump', 'cjump', 'tick', 'tick', 'assign', 'return', 'function')
+
+
+def small_model(rng, gen, max_len=6, alphabet=SMALL_ALPHABET, exact=None):
     """Uniform sample from the property's 'length <= 6' alphabet (sampling, not enumeration)."""
     from .. import ir
     from ..ir import call, s, num, var
@@ -61,7 +64,7 @@ def small_model(rng, gen):
     def stmts(n, in_func):
         out = []
         for _ in range(n):
-            k = rng.choice(SMALL_ALPHABET if not in_func else SMALL_ALPHABET[:-1])
+            k = rng.choice(alphabet if not in_func else alphabet[:-1])
             if k == 'tick':
                 out.append(gen.tick())
             elif k == 'assign':
@@ -78,7 +81,7 @@ def small_model(rng, gen):
             else:
                 out.append(ir.st_function('fnA', [], stmts(rng.randint(0, 4), True)))
         return out
-    body = stmts(rng.randint(1, 6), False)
+    body = stmts(exact if exact else rng.randint(1, max_len), False)
     if rng.random() < 0.5:
         body.append(ir.st_expr(call('fnA')))
     return body
@@ -143,6 +146,18 @@ def gen(seed, tier, extra=None):
             c['stall'] = [rng.randint(1, 20), rng.randint(1, 6)]
         plan['clients'].append(c)
     plan['policy'] = rng.choice(['random', 'random', 'random', 'lowest'])
+    # churn: a sequence of short-lived models, each built, executed once and dropped — what an embedder that parses
+    # and runs many snippets does; the allocator hands the next model the addresses of the previous one
+    rc = stream(seed, 'churn')
+    if rc.random() < 0.6:
+        gc_ = gen_exec.ExecGen(rc, {'include': False, 'callbacks': False, 'data': False, 'p_nonterm': 0.0, 'max_top': 6,
+                                    'raw_jumps': 1.0, 'n_funcs': 0})
+        gc_.funcs = ['fnA']
+        long_ = rc.random() < 0.04
+        fixed = rc.choice([4, 5, 6, 8]) if long_ else None      # same-length lists: the stale index is in range again
+        plan['churn'] = {'models': [small_model(rc, gc_, max_len=rc.choice([6, 10, 14]), alphabet=CHURN_ALPHABET, exact=fixed)
+                                    for _ in range(rc.randint(150, 300) if long_ else rc.randint(4, 14))],
+                         'answers': gc_.answers}
     return plan
 
 
@@ -470,6 +485,58 @@ def run(plan, stats):
                                             'second_error': second.error}))
             if models[mi] != snapshots[mi] and immut['bad'] is None:
                 viols.append(Violation(PROP, 'immutable', 'model-modified-by-execution', {'model': mi, 'when': 'restart'}))
+    # churn phase: short-lived models one after another in this process (references first, so that nothing but the
+    # real runs happens between dropping one model and building the next)
+    if not viols and plan.get('churn'):
+        ch = plan['churn']
+        todo = []
+        for ix, stmts in enumerate(ch['models']):
+            p = {'model': stmts, 'answers': ch['answers'], 'exprs': {}, 'globals': {}, 'debug': False, 'has_log': True,
+                 'has_fetch': True, 'faults': [], 'files': {}}
+            ref = run_ref(p, limit=0, cap=CAP)
+            lim = 0
+            if ref.error == ('cap',):
+                lim = 120
+                ref = run_ref(p, limit=lim)
+            if ref.error is not None and ref.error[0] == 'unsupported':
+                continue
+            # … and its owner may edit the model object in place between two executions (a statement replaced by a label)
+            edit = None
+            erng = stream(plan.get('seed', 0), f'churn-edit:{ix}')
+            if stmts and erng.random() < 0.5:
+                from .. import ir as _ir
+                at, name = erng.randrange(len(stmts)), erng.choice(['A', 'B'])
+                p2 = dict(p)
+                p2['model'] = copy.deepcopy(stmts)
+                p2['model'][at] = _ir.st_label(name)
+                ref2 = run_ref(p2, limit=lim or 0, cap=CAP if not lim else 0)
+                if ref2.error is None or ref2.error[0] not in ('unsupported', 'cap'):
+                    edit = (at, name, p2, ref2)
+            todo.append((ix, p, lim, ref, edit))
+        for ix, p, lim, ref, edit in todo:
+            fresh = {'statements': copy.deepcopy(p['model'])}
+            real = run_real(p, limit=lim, sim_options=True, model=fresh, max_starts=MAX_STARTS)
+            stats.c['evaluations'] += 1
+            stats.c['churn_runs'] += 1
+            dig.append(real.summary())
+            diff = compare_outcomes(real, ref)
+            what = 'short-lived-model:'
+            if diff is None and edit is not None:
+                at, name, p2, ref = edit
+                from .. import ir as _ir
+                fresh['statements'][at] = _ir.st_label(name)
+                real = run_real(p2, limit=lim, sim_options=True, model=fresh, max_starts=MAX_STARTS)
+                stats.c['evaluations'] += 1
+                stats.probes['model_edited_in_place_by_its_owner_between_executions'] += 1
+                dig.append(real.summary())
+                diff = compare_outcomes(real, ref)
+                what = 'model-edited-in-place-between-executions:'
+            del fresh
+            if diff is not None:
+                viols.append(Violation(PROP, 'refine', what + classify(diff, real, ref),
+                                       {'churn_index': ix, 'diff': diff, 'real_error': real.error, 'ref_error': ref.error}))
+                break
+        stats.probes['sequence_of_short_lived_models'] += 1
     sample = None
     if plan.get('seed', 0) % 41 == 1:
         from .. import ir
@@ -532,6 +599,8 @@ def reducible(plan):
     out = [plan['clients']]
     for c in plan['clients']:
         out.append(c.get('faults', []))
+    if plan.get('churn'):
+        out.append(plan['churn']['models'])
     return out
 
 
